@@ -216,8 +216,13 @@ impl Gen {
                 };
             }
             Kind::CopyRange => {
-                st.a = self.rng.next();
-                st.b = self.rng.next();
+                // word-aligned starts (0, 64, 128, ...) are where fast paths live
+                st.a = if self.rng.chance(2, 5) { 64 * self.rng.below((n / 64 + 1) as u64) } else { self.rng.next() };
+                st.b = match self.rng.below(4) {
+                    0 => self.rng.below(9),
+                    1 => self.rng.below(130),
+                    _ => self.rng.next(),
+                };
             }
             Kind::Extend | Kind::Collect => {
                 let base = if kind == Kind::Extend { n } else { 0 };
